@@ -21,6 +21,7 @@ import (
 	"unicode"
 	"unicode/utf8"
 
+	"github.com/osteele/liquid"
 	"github.com/osteele/liquid/expressions"
 	"github.com/osteele/liquid/filters"
 	"github.com/osteele/liquid/values"
@@ -760,6 +761,8 @@ func strfOracle(r *Run, name, s string, args []any, val any, res, line string) {
 	checkValid()
 }
 
+var strfvPrintEngine = liquid.NewEngine()
+
 // strfvOracle: a non-string receiver behaves as the text it prints as (nil as "").
 func strfvOracle(r *Run, name string, recv any, args []any, res, line string) {
 	viol := func(clause, detail string) { r.Violate("C16", clause, line, detail) }
@@ -790,7 +793,13 @@ func strfvOracle(r *Run, name string, recv any, args []any, res, line string) {
 	case string:
 		text = t
 	case bool, int, int8, int16, int32, int64, uint, uint8, uint16, uint32, uint64, float32, float64:
-		text = fmt.Sprint(t)
+		// "converted to the text they print as": the text is what the engine prints for {{ x }}
+		// (a whole float is written in full: 1000000, not fmt's 1e+06)
+		var err error
+		text, err = strfvPrintEngine.ParseAndRenderString("{{ x }}", map[string]any{"x": t})
+		if err != nil {
+			return
+		}
 	default:
 		return
 	}
